@@ -27,21 +27,21 @@ TEXT = {
          'Held on the executions produced: blocks of the three atomistic force fields presented scrambled/permuted/incomplete/with extras; the expected result is known by construction. Watchdog hits are inconclusive, never violations.'),
  'C05': ('wrapped match_link generator + before/after interaction tables compared with an independent placement enumerator and a reference link interpreter',
          'Held on the executions produced: every link of eight shipped force fields on pipeline-built, hostilely renumbered molecules, and synthetic link lists using every documented feature.'),
- 'C06': ('every yielded mapping checked against exhaustive enumeration (own matcher cross-checked with VF2) and automorphism classes; coset-inside-orbit invariant on the symmetry analysis',
+ 'C06': ('every yielded mapping checked against exhaustive enumeration (own matcher cross-checked with VF2) and automorphism classes; coset-inside-orbit invariant on the symmetry analysis; call histories on one matcher object and through a shared symmetry cache',
          'Held on the executions produced: graph pairs up to pattern 10 / host 14 nodes incl. structured symmetric families; exhaustive enumeration is the oracle. Termination is not claimed.'),
- 'C07': ('audit-hook trace + directory snapshots against a sequential file-system model; exhaustive crash-point enumeration (fork + os._exit at the k-th event) per explored history; CLI exit code/listing gate',
-         'fault_enumeration: for each explored history all N+1 crash points of finalisation are enumerated (also with the temporary directory on another file system); histories and CLI scenarios themselves are sampled.'),
+ 'C07': ('audit-hook trace + directory snapshots against a sequential file-system model; exhaustive interruption-point enumeration per explored history (fork; process death at the k-th file-system event, and an exception injected at the k-th event); several rounds on one writer object; CLI exit code/listing gate',
+         'fault_enumeration: for each explored history all N+1 process-death points and all N exception-injection points of finalisation are enumerated (also with the temporary directory on another file system); histories and CLI scenarios themselves are sampled.'),
  'C08': ('reference arithmetic on the return value of ignore_warnings_and_count fed by real logging calls; exhaustive small sub-domain',
          'Held on the executions produced, incl. an exhaustive enumeration of a small sub-domain; the function is pure arithmetic so exploration with an exact reference is adequate.'),
- 'C09': ('exact weighted-mean oracle (fsum), NaN rule, bounding box and rigid-motion equivariance by paired executions; particles from the real do_mapping',
+ 'C09': ('exact weighted-mean oracle (fsum), NaN rule, bounding box and rigid-motion equivariance by paired executions; particles from the real do_mapping; processor object reused across differently configured force fields',
          'Held on the executions produced: generated particles with shared atoms, zero weights, missing coordinates, centre weights, 2-D/3-D.'),
  'C10': ('O(N^2) pairwise reference with an independent Bondi table; tag-based conservation and residue-integrity checks on MakeBonds output',
          'Held on the executions produced: fragments of real structures and point clouds with planted near-threshold pairs, all modes and fudge factors.'),
- 'C11': ('paired real CLI runs in separate processes (presentation applied in memory to read_system), pairwise file comparison',
+ 'C11': ('paired real CLI runs in separate processes (presentation applied in memory to read_system: atom order, hydrogen names, rigid motion, hash seed), pairwise comparison of the parsed output files; known finding classified by mechanism',
          'Held on the executions produced: a sparse sample of (structure, options, presentation, hash seed); cannot be enumerated, each pair costs a full pipeline run.'),
  'C12': ('shadow-model monitor compared with every molecule of a pool after every operation of a random edit history; merge post-condition checked on observed before/after states',
          'Held on the executions produced: tens of thousands of operations per run, hostile orders emphasised.'),
- 'C13': ('loaded objects compared with the abstract description the text was rendered from; fault injection must raise',
+ 'C13': ('loaded objects compared with the abstract description the text was rendered from (every documented section in blocks, links and modifications); fault injection must raise; known finding classified by mechanism',
          'Held on the executions produced: generated .ff/.itp/.map files with equivalent spellings varied, and one injected fault per faulty file.'),
  'C14': ('identify_ptms wrapped from the harness; cover checker (exactly-once, induced, name/element rules, labels, warning) on molecule before/after',
          'Held on the executions produced: charmm/amber peptides through the real RepairGraph and synthetic modification sets built around the cover search.'),
@@ -49,11 +49,11 @@ TEXT = {
          'Held on the executions produced: generated molecules with irregular selections, domains, near-threshold pairs.'),
  'C16': ('round trip through the real writers and readers compared field by field with format tolerances',
          'Held on the executions produced: systems up to 100 005 atoms crossing every field-width boundary.'),
- 'C17': ('per-residue reference assignment on node attributes after AnnotateResidues; rule-table oracle for DSSP translation (exhaustive to length 4/6)',
+ 'C17': ('per-residue reference assignment on node attributes after AnnotateResidues (fresh and reused processor objects); rule-table oracle for DSSP translation (exhaustive to length 4/6)',
          'Held on the executions produced; DSSP strings are enumerated exhaustively up to length 4 (quick) / 6 (thorough).'),
  'C18': ('set-based reference for Go sites and contacts on the objects after GoPipeline.run_system',
          'Held on the executions produced: generated multi-chain systems with cross-links and contact maps straddling every filter.'),
- 'C19': ('per-specification residue matcher reference on node attributes and warnings after AnnotateMutMod; atom sets after the real RepairGraph',
+ 'C19': ('per-specification residue matcher reference on node attributes and warnings after AnnotateMutMod; atom sets after the real RepairGraph; second-round requests on copies and on repaired systems',
          'Held on the executions produced: generated systems and specification lists using every subset of parts.'),
 }
 
